@@ -323,21 +323,31 @@ class MafRecord(MutableMapping, LocatableByAllele):
                 )
 
         # if we did not find any None columns, then do a bunch of internal
-        #  self-consistency checking.
+        #  self-consistency checking (a stored column may have been modified
+        #  after it was added); report problems as validation errors.
         if not found_none_column:
-            # double-check the dictionary for columns with None values.
-            for name in self.__columns_dict:
-                assert self.__columns_dict[name] is not None
-            # validate we have the same # of columns in the list as in the dict
-            assert len(self.__columns_dict) == len(self.__columns_list)
             # validate we have the same columns in the list as in the dict
-            assert (
-                sorted(self.__columns_dict.values(), key=lambda r: r.column_index)  # type: ignore
-                == self.__columns_list
-            )
+            if len(self.__columns_dict) != len(self.__columns_list) or any(
+                self.__columns_dict.get(column.key) is not column  # type: ignore
+                for column in self.__columns_list
+            ):
+                add_errors(
+                    MafValidationError(
+                        MafValidationErrorType.RECORD_OUT_OF_SYNC,
+                        "The columns stored by name and by index differ",
+                        line_number=self.__line_number,
+                    )
+                )
             # ensure that all records' column_index match the index in the list
             for (column_index, column) in enumerate(self.__columns_list):
-                assert column_index == column.column_index  # type: ignore
+                if column_index != column.column_index:  # type: ignore
+                    add_errors(
+                        MafValidationError(
+                            MafValidationErrorType.RECORD_COLUMN_INDEX_OUT_OF_SYNC,
+                            f"Column '{column_index+1}' reports the index '{column.column_index}'",  # type: ignore
+                            line_number=self.__line_number,
+                        )
+                    )
 
         # TODO: validate cross-column constraints (ex. Mutation_Status)
         # TODO: validate that chromosome/start/end are defined
